@@ -1,0 +1,78 @@
+//go:build verif
+
+// Verification contracts for package utils (comment-only; compiled only with -tags verif).
+// Read by /verif/cmd/gvc; see /verif/DESIGN.md for the contract language.
+
+package utils
+
+// (bytes.Equal is declared pure in pkg/tree/zz_verif_contracts.go; extern contracts are global)
+
+// ---------------------------------------------------------------------------
+// C12: values that denote the same datum compare equal and different data compare different
+
+//@ pred bothKind(a, b, k) = a != nil && b != nil && kind(a.Value) == k && kind(b.Value) == k
+
+//@ func EqualTypedValues
+//@   props C12 C15
+//@   pure
+//@   modifies nothing
+//@   ensures nil_only_equals_nil: (v1 == nil || v2 == nil) ==> result == (v1 == nil && v2 == nil)
+//@   ensures different_kinds_differ: v1 != nil && v2 != nil && kind(v1.Value) != kind(v2.Value) ==> !result
+//@   ensures string_kind: bothKind(v1, v2, kindof(*sdcpb.TypedValue_StringVal)) && dyn(v1.Value, *sdcpb.TypedValue_StringVal) != nil && dyn(v2.Value, *sdcpb.TypedValue_StringVal) != nil ==>
+//@            result == (dyn(v1.Value, *sdcpb.TypedValue_StringVal).StringVal == dyn(v2.Value, *sdcpb.TypedValue_StringVal).StringVal)
+//@   ensures ascii_kind: bothKind(v1, v2, kindof(*sdcpb.TypedValue_AsciiVal)) && dyn(v1.Value, *sdcpb.TypedValue_AsciiVal) != nil && dyn(v2.Value, *sdcpb.TypedValue_AsciiVal) != nil ==>
+//@            result == (dyn(v1.Value, *sdcpb.TypedValue_AsciiVal).AsciiVal == dyn(v2.Value, *sdcpb.TypedValue_AsciiVal).AsciiVal)
+//@   ensures int_kind: bothKind(v1, v2, kindof(*sdcpb.TypedValue_IntVal)) && dyn(v1.Value, *sdcpb.TypedValue_IntVal) != nil && dyn(v2.Value, *sdcpb.TypedValue_IntVal) != nil ==>
+//@            result == (dyn(v1.Value, *sdcpb.TypedValue_IntVal).IntVal == dyn(v2.Value, *sdcpb.TypedValue_IntVal).IntVal)
+//@   ensures uint_kind: bothKind(v1, v2, kindof(*sdcpb.TypedValue_UintVal)) && dyn(v1.Value, *sdcpb.TypedValue_UintVal) != nil && dyn(v2.Value, *sdcpb.TypedValue_UintVal) != nil ==>
+//@            result == (dyn(v1.Value, *sdcpb.TypedValue_UintVal).UintVal == dyn(v2.Value, *sdcpb.TypedValue_UintVal).UintVal)
+//@   ensures bool_kind: bothKind(v1, v2, kindof(*sdcpb.TypedValue_BoolVal)) && dyn(v1.Value, *sdcpb.TypedValue_BoolVal) != nil && dyn(v2.Value, *sdcpb.TypedValue_BoolVal) != nil ==>
+//@            result == (dyn(v1.Value, *sdcpb.TypedValue_BoolVal).BoolVal == dyn(v2.Value, *sdcpb.TypedValue_BoolVal).BoolVal)
+//@   ensures float_kind: bothKind(v1, v2, kindof(*sdcpb.TypedValue_FloatVal)) && dyn(v1.Value, *sdcpb.TypedValue_FloatVal) != nil && dyn(v2.Value, *sdcpb.TypedValue_FloatVal) != nil ==>
+//@            result == (dyn(v1.Value, *sdcpb.TypedValue_FloatVal).FloatVal == dyn(v2.Value, *sdcpb.TypedValue_FloatVal).FloatVal)
+//@   ensures double_kind: bothKind(v1, v2, kindof(*sdcpb.TypedValue_DoubleVal)) && dyn(v1.Value, *sdcpb.TypedValue_DoubleVal) != nil && dyn(v2.Value, *sdcpb.TypedValue_DoubleVal) != nil ==>
+//@            result == (dyn(v1.Value, *sdcpb.TypedValue_DoubleVal).DoubleVal == dyn(v2.Value, *sdcpb.TypedValue_DoubleVal).DoubleVal)
+//@   ensures decimal_kind: bothKind(v1, v2, kindof(*sdcpb.TypedValue_DecimalVal)) && dyn(v1.Value, *sdcpb.TypedValue_DecimalVal) != nil && dyn(v2.Value, *sdcpb.TypedValue_DecimalVal) != nil &&
+//@            dyn(v1.Value, *sdcpb.TypedValue_DecimalVal).DecimalVal != nil && dyn(v2.Value, *sdcpb.TypedValue_DecimalVal).DecimalVal != nil ==>
+//@            result == (dyn(v1.Value, *sdcpb.TypedValue_DecimalVal).DecimalVal.Digits == dyn(v2.Value, *sdcpb.TypedValue_DecimalVal).DecimalVal.Digits &&
+//@                       dyn(v1.Value, *sdcpb.TypedValue_DecimalVal).DecimalVal.Precision == dyn(v2.Value, *sdcpb.TypedValue_DecimalVal).DecimalVal.Precision)
+//@   ensures bytes_kind: bothKind(v1, v2, kindof(*sdcpb.TypedValue_BytesVal)) && dyn(v1.Value, *sdcpb.TypedValue_BytesVal) != nil && dyn(v2.Value, *sdcpb.TypedValue_BytesVal) != nil ==>
+//@            result == bytes.Equal(dyn(v1.Value, *sdcpb.TypedValue_BytesVal).BytesVal, dyn(v2.Value, *sdcpb.TypedValue_BytesVal).BytesVal)
+//@   ensures json_kind: bothKind(v1, v2, kindof(*sdcpb.TypedValue_JsonVal)) && dyn(v1.Value, *sdcpb.TypedValue_JsonVal) != nil && dyn(v2.Value, *sdcpb.TypedValue_JsonVal) != nil ==>
+//@            result == bytes.Equal(dyn(v1.Value, *sdcpb.TypedValue_JsonVal).JsonVal, dyn(v2.Value, *sdcpb.TypedValue_JsonVal).JsonVal)
+//@   ensures empty_kind: bothKind(v1, v2, kindof(*sdcpb.TypedValue_EmptyVal)) ==> result
+//@   ensures identityref_kind: bothKind(v1, v2, kindof(*sdcpb.TypedValue_IdentityrefVal)) && dyn(v1.Value, *sdcpb.TypedValue_IdentityrefVal) != nil && dyn(v2.Value, *sdcpb.TypedValue_IdentityrefVal) != nil &&
+//@            dyn(v1.Value, *sdcpb.TypedValue_IdentityrefVal).IdentityrefVal != nil && dyn(v2.Value, *sdcpb.TypedValue_IdentityrefVal).IdentityrefVal != nil ==>
+//@            result == (dyn(v1.Value, *sdcpb.TypedValue_IdentityrefVal).IdentityrefVal.Value == dyn(v2.Value, *sdcpb.TypedValue_IdentityrefVal).IdentityrefVal.Value &&
+//@                       dyn(v1.Value, *sdcpb.TypedValue_IdentityrefVal).IdentityrefVal.Module == dyn(v2.Value, *sdcpb.TypedValue_IdentityrefVal).IdentityrefVal.Module &&
+//@                       dyn(v1.Value, *sdcpb.TypedValue_IdentityrefVal).IdentityrefVal.Prefix == dyn(v2.Value, *sdcpb.TypedValue_IdentityrefVal).IdentityrefVal.Prefix)
+//@   ensures leaflist_lengths: bothKind(v1, v2, kindof(*sdcpb.TypedValue_LeaflistVal)) && dyn(v1.Value, *sdcpb.TypedValue_LeaflistVal) != nil && dyn(v2.Value, *sdcpb.TypedValue_LeaflistVal) != nil &&
+//@            dyn(v1.Value, *sdcpb.TypedValue_LeaflistVal).LeaflistVal != nil && dyn(v2.Value, *sdcpb.TypedValue_LeaflistVal).LeaflistVal != nil &&
+//@            len(dyn(v1.Value, *sdcpb.TypedValue_LeaflistVal).LeaflistVal.Element) != len(dyn(v2.Value, *sdcpb.TypedValue_LeaflistVal).LeaflistVal.Element) ==> !result
+
+// ---------------------------------------------------------------------------
+// C12: rendering of the 64-bit integer kinds is exact (no narrowing conversion)
+
+//@ extern strconv.FormatUint
+//@   pure
+//@ extern strconv.FormatInt
+//@   pure
+
+//@ func TypedValueToString
+//@   props C12
+//@   requires tv != nil
+//@   ensures uint_decimal: istype(tv.Value, *sdcpb.TypedValue_UintVal) && dyn(tv.Value, *sdcpb.TypedValue_UintVal) != nil ==>
+//@            result == strconv.FormatUint(dyn(tv.Value, *sdcpb.TypedValue_UintVal).UintVal, 10)
+//@   ensures int_decimal: istype(tv.Value, *sdcpb.TypedValue_IntVal) && dyn(tv.Value, *sdcpb.TypedValue_IntVal) != nil ==>
+//@            result == strconv.FormatInt(dyn(tv.Value, *sdcpb.TypedValue_IntVal).IntVal, 10)
+//@   ensures string_verbatim: istype(tv.Value, *sdcpb.TypedValue_StringVal) && dyn(tv.Value, *sdcpb.TypedValue_StringVal) != nil ==>
+//@            result == dyn(tv.Value, *sdcpb.TypedValue_StringVal).StringVal
+//@   ensures identityref_value: istype(tv.Value, *sdcpb.TypedValue_IdentityrefVal) && dyn(tv.Value, *sdcpb.TypedValue_IdentityrefVal) != nil &&
+//@            dyn(tv.Value, *sdcpb.TypedValue_IdentityrefVal).IdentityrefVal != nil ==>
+//@            result == dyn(tv.Value, *sdcpb.TypedValue_IdentityrefVal).IdentityrefVal.Value
+
+// C12: every value kind has a gNMI rendering (a nil result drops the update from the SetRequest)
+//@ func ToGNMITypedValue
+//@   props C12
+//@   ensures nil_in_nil_out: v == nil ==> result == nil
+//@   ensures non_nil_for_every_kind: v != nil && kind(v.Value) != 0 ==> result != nil
